@@ -6,6 +6,9 @@ CONSTANTS
   Entries <- MCEntries
   Random <- MCRandom
   Seedable <- MCSeedRand
+  Objs <- MCNoObjs
+  ObjSeed <- MCObjSeed
+  ObjEntries <- MCSeedRand
   MaxOps = 4
   Variant = "ignore_seed"
 INVARIANT TypeOK
@@ -14,5 +17,6 @@ INVARIANT TwinGeneratorsAgree
 INVARIANT DeterministicNoSeed
 INVARIANT ReseedReproducible
 PROPERTY IntSeedLeavesGlobal
+PROPERTY ObjSeedLeavesGlobal
 PROPERTY IntSeedLeavesGenerators
 PROPERTY GenCallOwnStreamOnly
